@@ -1,4 +1,6 @@
-import FimVerif.Proofs.Lemmas.TopoAtomicExt
+import FimVerif.Proofs.Lemmas.TopoAtomicFac
+import FimVerif.Proofs.Lemmas.TopoAtomicDetach
+import FimVerif.Proofs.Lemmas.TopoAtomicPeer
 /-!
 # C09 — a topology-building call that raises leaves the model unchanged
 
@@ -7,11 +9,14 @@ import FimVerif.Proofs.Lemmas.TopoAtomicExt
 raises returns none and the caller's cache is untouched by construction; the uuid supply is an argument.
 
 Full statement (for every building call `op`, every state): `Atomic op`.
-It holds for the validate-before-mutate calls below.  It does not hold for the calls that create a node and
-then attach it (`add_interface` on a handle whose service is gone, `add_link` with a bad k-th interface,
-substrate `add_component` with colliding caller-supplied ids) nor for the composites `add_facility` /
-`add_switch`: for those the file has a `_counterexample` (replayed on the implementation by the oracle's
-deterministic cases) and the strongest guarded `_partial`.
+`atomic_op` (22 request kinds, `Topo.TopoOp`) and `atomic_xop` (6 more, `Topo.XOp`: sub-interfaces, peer/unpeer, port mirror,
+`model_type=` components) prove it for every call under explicit decidable hypotheses on the state (`Covered` / `CoveredX`):
+distinct ids, no dangling edge, fresh uuids, and for the removals the shape facts `RemoveHyp`.  The one call left outside is
+`add_component` with caller-supplied ids for its service / interfaces: the code creates the Component and then fails on a
+taken id with no clean-up (known finding, `addComponent_counterexample`, replayed on the implementation by the oracle).
+Several proofs exist only because the code was repaired on the way (rollback on any exception, validate-before-create,
+composite try/except, peer clean-up, disconnect loop skipping removed interfaces): each repaired idiom is a generated flag
+(`Gen.Rules.*`), so reverting the repair flips the model and breaks the proof.
 -/
 namespace FimVerif.C09
 open FimVerif FimVerif.M FimVerif.Topo
@@ -232,14 +237,73 @@ theorem atomic_removeInterface (fl : Flavour) (svc : Nid) (name : String) (s : T
   refine ro_step (Q := FS s) (by ro) FS.err (fun _ _ => ?_)
   exact removeCpAndLinks_atomic _ true s hd
 
+/-! ## the composites: node, then its service, then its interfaces, inside `try … except Exception: remove the node with
+everything under it; raise` (commit 3676b54).  Whatever step raises - a taken derived id, a rejected interface keyword at the
+k-th interface, a duplicate name - the partial construct is `fac s fn sn cps` (or just the node) and
+`remove_network_node_with_components_nss_cps_and_links` on it returns exactly `s` (`removeNodeGraph_fac`). -/
+
+theorem atomic_addFacility (fl : Flavour) (c : Nat) (name : String) (nid : Option Nid) (site : Option String)
+    (nstype : Option String) (nsprops : List PropArg) (ifs : Option (List (String × List PropArg))) (kw : List PropArg)
+    (s : Topo) (hd : IdsDistinct s) (hc : Closed s) (hf : failed (addFacility fl c name nid site nstype nsprops ifs kw s)) :
+    (addFacility fl c name nid site nstype nsprops ifs kw s).2 = s :=
+  addFacility_fs fl c name nid site nstype nsprops ifs kw s hc hd hf
+
+theorem atomic_addSwitch (fl : Flavour) (c : Nat) (name : String) (nid : Option Nid) (site : Option String)
+    (nstype : Option String) (nsprops : List PropArg) (ports : List (String × String × List PropArg))
+    (s : Topo) (hd : IdsDistinct s) (hc : Closed s) (hf : failed (addSwitch fl c name nid site nstype nsprops ports s)) :
+    (addSwitch fl c name nid site nstype nsprops ports s).2 = s :=
+  addSwitch_fs fl c name nid site nstype nsprops ports s hc hd hf
+
+/-! ## removals that delete in several passes: once the look-ups by name succeeded, every later pass finds what it
+looks for (`Rm`: the passes only ever restrict the state, Proofs/Lemmas/TopoAtomicDrop.lean) -/
+
+theorem atomic_removeLink (name : String) (s : Topo) (hd : IdsDistinct s) (hsl : SpLeaf s)
+    (hf : failed (removeLink name s)) : (removeLink name s).2 = s := removeLink_fs name s hd hsl hf
+
+/-- the state hypotheses of the removals that first disconnect (`Topology._disconnect_interfaces`): distinct ids, every
+ServicePort owned by exactly one service, at most one ServicePort peer per interface, nothing hanging off a ServicePort
+(`DetachHyp`), no edge between two interfaces that are both attached to services (`CpEdgeOk`) -/
+def RemoveHyp (s : Topo) : Prop := DetachHyp s ∧ CpEdgeOk s
+instance (s : Topo) : Decidable (RemoveHyp s) := by unfold RemoveHyp; infer_instance
+
+/-- `Topology.remove_node`: after the look-ups by name, the disconnect loop (which skips an interface an earlier pass
+already removed: commit c460287), the second look-up and the graph-level removal all return -/
+theorem atomic_removeNode (name : String) (s : Topo) (h : RemoveHyp s) (hf : failed (removeNode name s)) :
+    (removeNode name s).2 = s := removeNode_fs name s h.1 h.2 hf
+
+theorem atomic_removeFacility (name : String) (s : Topo) (h : RemoveHyp s) (hf : failed (removeFacility name s)) :
+    (removeFacility name s).2 = s := removeFacility_fs name s h.1 h.2 hf
+
+theorem atomic_removeSwitch (name : String) (s : Topo) (h : RemoveHyp s) (hf : failed (removeSwitch name s)) :
+    (removeSwitch name s).2 = s := removeSwitch_fs name s h.1 h.2 hf
+
+theorem atomic_removeService (name : String) (s : Topo) (h : RemoveHyp s) (hf : failed (removeService name s)) :
+    (removeService name s).2 = s := removeService_fs name s h.1 h.2 hf
+
+theorem atomic_nodeRemoveService (parent : Nid) (name : String) (s : Topo) (h : RemoveHyp s)
+    (hf : failed (nodeRemoveService parent name s)) : (nodeRemoveService parent name s).2 = s :=
+  nodeRemoveService_fs parent name s h.1 h.2 hf
+
+theorem atomic_removeComponent (parent : Nid) (name : String) (s : Topo) (h : RemoveHyp s)
+    (hf : failed (removeComponent parent name s)) : (removeComponent parent name s).2 = s :=
+  removeComponent_fs parent name s h.1 h.2 hf
+
+/-- non-vacuity: a node with a component, a service with one connected interface: the hypotheses hold -/
+example : RemoveHyp ⟨[⟨.networkNode, .user "n", "n", "VM", []⟩, ⟨.component, .user "c", "c", "SmartNIC", []⟩,
+      ⟨.networkService, .user "cs", "cs", "OVS", []⟩, ⟨.connectionPoint, .user "i", "i", "DedicatedPort", []⟩,
+      ⟨.networkService, .user "s", "s", "L2Bridge", []⟩, ⟨.connectionPoint, .user "p", "p", "ServicePort", []⟩,
+      ⟨.link, .user "l", "l", "Patch", []⟩],
+     [⟨⟨.networkNode, .user "n"⟩, ⟨.component, .user "c"⟩, .has⟩, ⟨⟨.component, .user "c"⟩, ⟨.networkService, .user "cs"⟩, .has⟩,
+      ⟨⟨.networkService, .user "cs"⟩, ⟨.connectionPoint, .user "i"⟩, .connects⟩,
+      ⟨⟨.networkService, .user "s"⟩, ⟨.connectionPoint, .user "p"⟩, .connects⟩,
+      ⟨⟨.link, .user "l"⟩, ⟨.connectionPoint, .user "i"⟩, .connects⟩, ⟨⟨.link, .user "l"⟩, ⟨.connectionPoint, .user "p"⟩, .connects⟩]⟩ := by
+  decide
+
 /-! ## one theorem over the op alphabet
 
-`Covered op s` is the explicit guard: the calls whose atomicity is proved, with the hypotheses on the state and the
-arguments each proof uses.  The calls it excludes are the ones for which the full statement is open or false:
-`addComponent` with caller-supplied ids for its network service / interfaces (false when they collide - known finding,
-see `addComponent_counterexample`), the composites `addFacility`/`addSwitch` and the removals
-`removeNode`, `removeFacility`, `removeSwitch`, `removeLink`, `removeService`, `nodeRemoveService`, `removeComponent`
-(they delete in several passes; `removeNode` can genuinely raise half-way, see the report). -/
+`Covered op s` is the explicit guard: per call, the hypotheses on the state and the arguments its proof uses.  Only
+`addComponent` with caller-supplied ids for its network service / interfaces is excluded (false when they collide - known
+finding, see `addComponent_counterexample`). -/
 
 def FreshArgs (c : Nat) (s : Topo) (nid : Option Nid) : Prop :=
   (∀ m ∈ s.nodes, ∀ k, c ≤ k → m.nid ≠ .gen k) ∧ (∀ k, c ≤ k → nid ≠ some (.gen k))
@@ -261,7 +325,15 @@ def Covered : TopoOp → Topo → Prop
   | .addStorage _ c _ _ nid _, s => FreshArgs c s nid
   | .addService _ c a, s => IdsDistinct s ∧ Closed s ∧ FreshArgs c s a.nid ∧ IfsAll s (pick a.nid c).1 c a.ifs
   | .nodeAddService _ c _ a, s => IdsDistinct s ∧ Closed s ∧ FreshArgs c s a.nid ∧ IfsAll s (pick a.nid c).1 c a.ifs
-  | _, _ => False
+  | .addFacility _ _ _ _ _ _ _ _ _, s => IdsDistinct s ∧ Closed s
+  | .addSwitch _ _ _ _ _ _ _ _, s => IdsDistinct s ∧ Closed s
+  | .removeLink _, s => IdsDistinct s ∧ SpLeaf s
+  | .removeNode _, s => RemoveHyp s
+  | .removeFacility _, s => RemoveHyp s
+  | .removeSwitch _, s => RemoveHyp s
+  | .removeService _, s => RemoveHyp s
+  | .nodeRemoveService _ _, s => RemoveHyp s
+  | .removeComponent _ _, s => RemoveHyp s
 
 theorem fs_of_atomic {α : Type} {m : M Topo α} (h : Atomic m) (s : Topo) : FS s (m s) := h.h s
 
@@ -295,15 +367,15 @@ theorem atomic_op (op : TopoOp) (s : Topo) (hcov : Covered op s) (hf : failed (s
     exact FS_bind_pure (atomic_addStorage fl c p n i pr s h1 h2)
   | nsRemoveInterface fl svc n => exact FS_bind_pure (atomic_removeInterface fl svc n s hcov)
   | disconnect ca i => exact FS_bind_pure (atomic_disconnectInterface ca i s hcov)
-  | addFacility _ _ _ _ _ _ _ _ _ => exact hcov.elim
-  | addSwitch _ _ _ _ _ _ _ _ => exact hcov.elim
-  | removeNode _ => exact hcov.elim
-  | removeFacility _ => exact hcov.elim
-  | removeSwitch _ => exact hcov.elim
-  | removeLink _ => exact hcov.elim
-  | removeService _ => exact hcov.elim
-  | nodeRemoveService _ _ => exact hcov.elim
-  | removeComponent _ _ => exact hcov.elim
+  | addFacility fl c n i st t np ifs kw => exact FS_bind_pure (atomic_addFacility fl c n i st t np ifs kw s hcov.1 hcov.2)
+  | addSwitch fl c n i st t np ports => exact FS_bind_pure (atomic_addSwitch fl c n i st t np ports s hcov.1 hcov.2)
+  | removeNode n => exact FS_bind_pure (atomic_removeNode n s hcov)
+  | removeFacility n => exact FS_bind_pure (atomic_removeFacility n s hcov)
+  | removeSwitch n => exact FS_bind_pure (atomic_removeSwitch n s hcov)
+  | removeLink n => exact FS_bind_pure (atomic_removeLink n s hcov.1 hcov.2)
+  | removeService n => exact FS_bind_pure (atomic_removeService n s hcov)
+  | nodeRemoveService p n => exact FS_bind_pure (atomic_nodeRemoveService p n s hcov)
+  | removeComponent p n => exact FS_bind_pure (atomic_removeComponent p n s hcov)
 
 /-- non-vacuity of the guard: connecting an interface of a small well-formed model is covered -/
 example : Covered (.addLink .experiment 0 "l1" none (some "Patch") (some [.iface (.user "i1") "i1"]) none [])
@@ -351,12 +423,42 @@ theorem atomic_addComponentMT (fl : Flavour) (c : Nat) (parent : Nid) (a : CompA
   refine ro_step (Q := FS s) (by ro) FS.err (fun _ _ => ?_)
   exact compNewMT_atomic fl c parent a mt s hfresh hnid hgen
 
+/-- `Interface.remove_child_interface` (the child is not itself a ServicePort): disconnect, then `remove_cp_and_links` -/
+theorem atomic_removeChildInterface (port : Nid) (cache : Cache) (name : String) (s : Topo) (h : DetachHyp s)
+    (hnsp : ∀ m ∈ s.nodes, m.name = name → m.cls = .connectionPoint → m.typ ≠ "ServicePort")
+    (hf : failed (removeChildInterface port cache name s)) : (removeChildInterface port cache name s).2 = s :=
+  removeChildInterface_fs port cache name s h hnsp hf
+
+/-- what `peer` asks of its two handles: they refer to NetworkServices (when the node is there at all) and the other
+handle's id is not the uuid about to be drawn -/
+def PeerOk (s : Topo) (c : Nat) (svc : Nid) : Option SvcHandle → Prop
+  | none => True
+  | some o => (∀ m ∈ s.nodes, m.nid = o.nid → m.cls = .networkService) ∧ o.nid ≠ .gen c
+
+/-- `NetworkService.peer` with the clean-up of commit 277fd8f: whichever of the three creations is rejected (the other
+service is gone, its handle already lists the derived name, the link name is too long ...), the ServicePort(s) made so far
+are removed again and the model is what it was -/
+theorem atomic_peer (fl : Flavour) (c : Nat) (svc : Nid) (sname : String) (cache : Cache) (other : Option SvcHandle)
+    (props : List PropArg) (s : Topo) (hd : IdsDistinct s) (hc : Closed s)
+    (hsvc : ∀ m ∈ s.nodes, m.nid = svc → m.cls = .networkService) (hoth : PeerOk s c svc other)
+    (hf : failed (peer fl c svc sname cache other props s)) : (peer fl c svc sname cache other props s).2 = s :=
+  peer_fs fl c svc sname cache other props s hd hc hsvc (fun o ho => by subst ho; exact hoth) hf
+
+/-- `NetworkService.unpeer` -/
+theorem atomic_unpeer (cache : Cache) (other : Option SvcHandle) (s : Topo) (hd : IdsDistinct s) (hsl : SpLeaf s)
+    (hf : failed (unpeer cache other s)) : (unpeer cache other s).2 = s := unpeer_fs cache other s hd hsl hf
+
 /-- the guard of `atomic_xop` -/
 def CoveredX : XOp → Topo → Prop
   | .addChildInterface _ _ _ _ _ _ _ _ _, _ => True
   | .addPortMirror _ c a _ _, s => IdsDistinct s ∧ Closed s ∧ FreshArgs c s a.nid ∧ IfsAll s (pick a.nid c).1 c a.ifs
   | .addComponentMT _ c _ a _, s => FreshArgs c s a.nid ∧ a.ifNids = none ∧ a.nsNid = none
-  | _, _ => False
+  | .removeChildInterface _ _ name, s =>
+      DetachHyp s ∧ ∀ m ∈ s.nodes, m.name = name → m.cls = .connectionPoint → m.typ ≠ "ServicePort"
+  | .peer _ c svc _ _ other _, s =>
+      IdsDistinct s ∧ Closed s ∧ (∀ m ∈ s.nodes, m.nid = svc → m.cls = .networkService) ∧ PeerOk s c svc other
+  | .unpeer _ _, s => IdsDistinct s ∧ SpLeaf s
+  | .prune _ _ _ _, _ => False      -- modelled and checked differentially only (a sequence of removals: not one atomic call)
 
 /-- for every call of the second alphabet that the guard admits and every state: a raise leaves the model unchanged -/
 theorem atomic_xop (op : XOp) (s : Topo) (hcov : CoveredX op s) (hf : failed (stepX op s)) : (stepX op s).2 = s := by
@@ -369,9 +471,10 @@ theorem atomic_xop (op : XOp) (s : Topo) (hcov : CoveredX op s) (hf : failed (st
   | addComponentMT fl c p a mt =>
     obtain ⟨⟨h1, h2⟩, h3⟩ := hcov
     exact FS_bind_pure (atomic_addComponentMT fl c p a mt s h1 h2 h3)
-  | removeChildInterface _ _ _ => exact hcov.elim
-  | peer _ _ _ _ _ _ _ => exact hcov.elim
-  | unpeer _ _ => exact hcov.elim
+  | removeChildInterface p ca n => exact FS_bind_pure (atomic_removeChildInterface p ca n s hcov.1 hcov.2)
+  | peer fl c svc sn ca o pr => exact FS_bind_pure (atomic_peer fl c svc sn ca o pr s hcov.1 hcov.2.1 hcov.2.2.1 hcov.2.2.2)
+  | unpeer ca o => exact FS_bind_pure (atomic_unpeer ca o s hcov.1 hcov.2)
+  | prune _ _ _ _ => exact hcov.elim
 
 
 /-! ## the known finding behind the exclusion of `addComponent`
